@@ -134,6 +134,11 @@ class FakeRequests:
             from urllib.parse import urlencode
             url = url + ("&" if "?" in url else "?") + urlencode(params)
         self.log.append({"url": url, "auth": auth if auth is not None else headers, "method": "GET"})
+        if len([l_ for l_ in self.log if l_["method"] == "GET"]) in getattr(self, "throttle_at", ()):
+            # the server is busy: 429 Too Many Requests, an error document without items, "retry at once"
+            r_ = Resp({"_status": "ERR", "_error": {"code": 429, "message": "Too Many Requests"}}, headers={"Retry-After": "0"})
+            r_.status_code, r_.ok, r_.reason = 429, False, "Too Many Requests"
+            return r_
         u = urlsplit(url)
         q = parse_qs(u.query, keep_blank_values=True)
         page = int(q.get("page", ["1"])[0])
